@@ -51,10 +51,70 @@ def cases():
                 for form in forms:
                     for h in HANDLERS:
                         yield {"fam": "prologue", "kind": kind, "flavour": fl, "place": place, "form": form, "handler": h}
+    yield from nested_cases()
     for kind in INC_KINDS:
         for h in INC_HANDLERS:
             for wrap in ("body", "in-buffered-def", "in-loop"):
                 yield {"fam": "prologue", "kind": kind, "flavour": "-", "place": wrap, "form": "include", "handler": h}
+
+
+NESTED_SITES = {
+    # where the nested render_context() call sits -> (template text around CALL, expected output with the widget giving W)
+    "body": ("s(CALL)e|${g()}", "s(W)e|G"),
+    "buffered-def": ('<%def name="f()" buffered="True">F[CALL]</%def>s(${f()})e|${g()}', "s(F[W])e|G"),
+    "filtered-def": ('<%def name="f()" filter="trim">F[CALL]</%def>s(${f()})e|${g()}', "s(F[W])e|G"),
+    "capture": ('<%def name="f()">F[CALL]</%def>s(${capture(f)})e|${g()}', "s(F[W])e|G"),
+    "call-body-of-buffered-def": ('<%def name="w()" buffered="True">w{${caller.body()}}</%def>s(<%call expr="w()">CALL</%call>)e|${g()}', "s(w{W})e|G"),
+    # (inside a <%block> the nested template's own error_handler is not consulted on the unchanged tree - which handler
+    # governs a render_context() into a borrowed Context is not fixed by the statement: no block / nested-def site)
+}
+NESTED_CALLS = {"render_context": "<% widget.render_context(context) %>", "render_context-kw": "<% widget.render_context(context, q=1) %>"}
+
+
+def nested_cases():
+    for site in NESTED_SITES:
+        for call in NESTED_CALLS:
+            for wk in ("fails-handled", "ok"):
+                yield {"fam": "prologue", "kind": "nested-render", "flavour": site, "place": call, "form": wk, "handler": "error_handler"}
+
+
+def run_nested(c):
+    """a second template rendered into the SAME context (render_context) from inside a capturing construct; its failure
+    is handled by its own error_handler (returns True): what it wrote stays where it was written, the enclosing
+    constructs close normally, later output follows"""
+    from mako.runtime import Context
+    from mako.template import Template
+    from mako.util import FastEncodingBuffer
+
+    tmpl, exp = NESTED_SITES[c["flavour"]]
+    handled = []
+
+    def eh(context, error):
+        handled.append(error)
+        return True
+
+    def boom():
+        raise Boom("planted")
+
+    widget = Template("W${boom()}X" if c["form"] == "fails-handled" else "W", error_handler=eh)
+    main = Template(tmpl.replace("CALL", NESTED_CALLS[c["place"]]) + '<%def name="g()">G</%def>')
+    what = "nested-render:%s" % c["flavour"]
+    for attempt in (1, 2):
+        buf = FastEncodingBuffer()
+        ctx = Context(buf, widget=widget, boom=boom)
+        del handled[:]
+        try:
+            main.render_context(ctx)
+            out = "".join(buf.getvalue().split("\n"))
+        except Exception as e:  # noqa
+            return ("prologue:%s:exception escapes (%s)" % (what, type(e).__name__), "a failure handled by the nested template's error_handler leaves the enclosing render consistent", exp, "%s: %s" % (type(e).__name__, str(e)[:100]))
+        if c["form"] == "fails-handled" and len(handled) != 1:
+            return ("prologue:%s:handler not called once" % what, "the nested template's error_handler is called once", 1, len(handled))
+        if out != exp:
+            return ("prologue:%s:output differs" % what, "text goes to the buffer that was current where it was written; enclosing constructs close normally", exp, out)
+        if len(ctx._buffer_stack) != 1 or ctx._buffer_stack[0] is not buf:
+            return ("prologue:%s:buffer stack not restored" % what, "rendering state is as if every construct had been exited normally", "the caller's buffer alone", "depth %d" % len(ctx._buffer_stack))
+    return None
 
 
 def build(c):
@@ -145,6 +205,8 @@ def run(c):
     from mako.runtime import Context
     from mako.util import FastEncodingBuffer
 
+    if c["kind"] == "nested-render":
+        return run_nested(c)
     b = build(c)
     if b is None:
         return "skip"
